@@ -7,7 +7,12 @@ RL = "self._rel._messages"
 FRESH_LIST = lambda L: f"forall(0, len({L}), lambda j: fresh({L}[j]))"
 # Wrapper level: no frame claim on message fields / lists (the writes happen inside the inner operations, whose own contracts
 # carry the frames); the four wrapper fields of *other* Sequence objects are framed.
-WRAP_MOD = dict(SELF_FIELDS, **{"@msgfields": "*", "@lists": "*", "_messages": "*"})
+OWN_MSGS = "[when(not self._abs_stale, self._abs._messages), when(not self._rel_stale, self._rel._messages)]"
+OWN_VIEWS = "[when(not self._abs_stale, self._abs), when(not self._rel_stale, self._rel)]"
+# a wrapper writes only: its own four fields, the message lists of its own stored views, and messages held by those lists
+WRAP_MOD = dict(SELF_FIELDS, **{"@msgfields": OWN_MSGS, "@lists": OWN_MSGS, "_messages": OWN_VIEWS})
+# composites of several wrapper calls: no frame claim on message fields / lists (each inner call carries its own frame)
+WRAP_MOD_WEAK = dict(SELF_FIELDS, **{"@msgfields": "*", "@lists": "*", "_messages": "*"})
 CASES = ["self._abs_stale", "self._rel_stale", "not self._abs_stale and not self._rel_stale"]
 
 # ------------------------------------------------------------------ protocol-level contracts of the heavy inner operations (A)
@@ -61,9 +66,9 @@ contract("Sequence.refresh", params={"self": "ref:Sequence"}, allocates=True, re
 
 
 # ------------------------------------------------------------------ mutators through the relative view
-def rel_mutator(name, params, extra_requires=(), extra_ensures=(), props=(), result=None):
+def rel_mutator(name, params, extra_requires=(), extra_ensures=(), props=(), result=None, weak=False):
     contract(f"Sequence.{name}", params=dict({"self": "ref:Sequence"}, **params), allocates=True, result=result, cases=CASES,
-             requires=[PROTO()] + list(extra_requires), modifies=dict(WRAP_MOD),
+             requires=[PROTO()] + list(extra_requires), modifies=dict(WRAP_MOD_WEAK if weak else WRAP_MOD),
              ensures=[("rel_fresh_abs_stale", "not self._rel_stale and self._abs_stale"), ("proto", PROTO())] + list(extra_ensures),
              props=["C04", "C16"] + list(props))
 
@@ -81,6 +86,7 @@ rel_mutator("pad", {"padding_length": "int"}, props=["C18", "C11"],
 rel_mutator("set_channel", {"channel": "int"}, props=["C18"],
             extra_ensures=[("all_set", f"forall(0, len({RL}), lambda j: {RLj}.channel == channel)")])
 rel_mutator("normalise", {})
+rel_mutator("scale", {"factor": "int", "meta_sequence": "ref:Sequence?", "quantise_afterwards": "bool"}, extra_requires=["factor >= 1"], props=["C18"], weak=True)
 rel_mutator("add_relative_message", {"msg": "ref:Message", "index": "int?"},
             extra_requires=["not is_none(msg.message_type) and implies(msg.message_type == MessageType.WAIT, not is_none(msg.time) and msg.time >= 0) and " + WF_MSG("msg"),
                             f"implies(not self._rel_stale, forall(0, len({RL}), lambda j: {RLj} != msg) and implies(not is_none(index), 0 <= index and index <= len({RL})))",
@@ -93,12 +99,12 @@ abs_mutator("add_absolute_message", {"msg": "ref:Message"},
 abs_mutator("cutoff", {"maximum_length": "int", "reduced_length": "int"}, props=["C18"])
 abs_mutator("quantise", {"step_sizes": "list:int?"})
 abs_mutator("quantise_note_lengths", {"note_values": "list:int?", "standard_length": "int", "do_not_extend": "bool"})
-rel_mutator("quantise_and_normalise", {"step_sizes": "list:int?", "note_values": "list:int?", "standard_length": "int", "do_not_extend": "bool"})
+rel_mutator("quantise_and_normalise", {"step_sizes": "list:int?", "note_values": "list:int?", "standard_length": "int", "do_not_extend": "bool"}, weak=True)
 
 # transpose: delegates, then re-normalises and re-quantises when an octave move happened (C14.d/e)
 contract("Sequence.transpose", params={"self": "ref:Sequence", "transpose_by": "int"}, result="bool", allocates=True, cases=CASES,
          requires=[PROTO()],
-         modifies=dict(WRAP_MOD),
+         modifies=dict(WRAP_MOD_WEAK),
          ensures=[("proto", PROTO()),
                   ("unshifted_state", "implies(not result, not self._rel_stale and self._abs_stale)"),
                   ("shifted_state", "implies(result, not self._abs_stale and self._rel_stale)"),
